@@ -507,7 +507,6 @@ static const std::vector<StressFam> &stress_fams() {
 		{"longcomment", {255, 256, 4096, 100000, 1000000}, false},
 		{"structmembers", {1, 32, 33, 65, 500}, false},
 		{"switchfib", {3, 8, 13, 18, 22, 25}, false},
-		{"opmatrix", opmatrix_knobs(), false},
 		{"anondesig", {0, 1, 2, 14, 15, 16, 17, 29, 30, 31, 32, 33, 34, 40, 64}, false},
 		{"mixdesig", {0, 1, 8, 15, 16, 17, 18, 30, 31, 32, 33, 40}, false},
 		{"macrorepl", {0, 1, 2, 3, 4, 5, 6, 7, 10, 11, 12, 13, 23, 24, 25, 26, 49, 50, 51, 52, 101, 102, 103, 300}, true},
@@ -526,6 +525,8 @@ static const std::vector<StressFam> &stress_fams() {
 		{"stringize", {1, 255, 256, 257, 511, 512, 513, 600, 4096, 100000, 1000000}, true},
 		{"eofpragma", {0, 1, 10}, false},
 		{"eofdirective", {0, 1, 2, 3, 4, 5, 6, 7, 8, 9, 10, 11, 12, 13, 14, 15, 16, 17, 18}, true},
+		// keep last: the quick tier runs everything before it completely and one sixth of it per run
+		{"opmatrix", opmatrix_knobs(), false},
 	};
 	return f;
 }
@@ -1152,7 +1153,9 @@ int main(int argc, char **argv) {
 
 	if (cmd == "space") {
 		const Space &s = space(opt["name"]);
-		printf("{\"name\":\"%s\",\"total\":%llu,\"corpus\":%zu,\"test_files\":%zu,\"own\":%zu}\n", s.name.c_str(), (unsigned long long)s.total, g_corpus.size(), g_ntest, g_own.size());
+		uint64_t handsized = 0;
+		if (opt["name"] == "stress") for (auto &f : stress_fams()) if (std::string(f.name) != "opmatrix") handsized += f.knobs.size();
+		printf("{\"handsized\":%llu,\"name\":\"%s\",\"total\":%llu,\"corpus\":%zu,\"test_files\":%zu,\"own\":%zu}\n", (unsigned long long)handsized, s.name.c_str(), (unsigned long long)s.total, g_corpus.size(), g_ntest, g_own.size());
 		return 0;
 	}
 	if (cmd == "ref") {
